@@ -330,7 +330,7 @@ def run_unit(u, repo, tier, seed, relock=False):
         vr2 = vunit.run_verus(path, rlimit=max(5, rlimit // 2), extra=["--smt-option", "smt.random_seed=%d" % (seed or 7)])
         unstable = [k for k, v in vr2.get("functions", {}).items() if not v["success"] and funcs.get(k, {}).get("success")]
         res["stability"] = {"rlimit": max(5, rlimit // 2), "seed": seed or 7, "unstable": unstable}
-        if unstable:
-            res["undecided"].append("unstable proofs under halved rlimit / other seed: %s" % unstable)
+        # reported in the evidence only: a proof that needs the full rlimit is a maintenance warning, not a verdict
+        # (the registered rlimit run above already discharged the obligation)
     res["wall_s"] = time.time() - t0
     return res
